@@ -506,8 +506,8 @@ impl Vm {
             if let Some(arg) = arg {
                 self.push(arg);
             }
-        } else if let Some(arg) = arg {
-            self.poke(0, arg);
+        } else {
+            self.poke(0, arg.unwrap_or_default());
         }
 
         self.load_frame();
